@@ -89,6 +89,13 @@ def flatten(streams_, sid_, depth=0):
             out.append(op)
             out.extend(flatten(streams_, t[2], depth + 1))
             out.append(cl)
+        elif isinstance(t, Hole):
+            # `#fragment` where fragment is a quote!{..} built earlier in the same function: spliced in place
+            s = strip_identity(t.term)
+            if s[0] == "call" and name_matches(s[1], "proc_macro2::TokenStream::new") and len(s) > 3 and s[3] in streams_ and s[3] != sid_:
+                out.extend(flatten(streams_, s[3], depth + 1))
+            else:
+                out.append(t)
         else:
             out.append(t)
     return out
